@@ -25,12 +25,20 @@ RELATED = {
 
 
 def load():
-    return json.loads(RESULTS.read_text()) if RESULTS.exists() else {}
+    import time
+    for _ in range(20):
+        try:
+            return json.loads(RESULTS.read_text()) if RESULTS.exists() else {}
+        except json.JSONDecodeError:
+            time.sleep(0.2)
+    return {}
 
 
 def save(r):
     SEEDED.mkdir(exist_ok=True)
-    RESULTS.write_text(json.dumps(r, indent=1, sort_keys=True))
+    tmp = RESULTS.with_suffix(".tmp")
+    tmp.write_text(json.dumps(r, indent=1, sort_keys=True))
+    os.replace(tmp, RESULTS)
 
 
 def have_check(c):
